@@ -35,7 +35,23 @@ const verif::Info verif_info = {
     "SIZE_MAX-start+-2, and left/right for every n in 0..2*len+2, SIZE_MAX-0..2. Oracle: reference slicing on std::string with "
     "non-wrapping arithmetic; before + matched separator + after == s checked on the library's own results; not-found rules; "
     "verif::budget_exceeded (allocation > 1 GiB inside a library call) or any other exception = violation. Non-trivial: substr clamping "
-    "happens (start < -size, start > size, or count > size-begin), or n > size, or the separator has length >= 2.",
+    "happens (start < -size, start > size, or count > size-begin), or n > size, or the separator has length >= 2. "
+    "EXTENDED - every case additionally: substr(start) next to substr(start,count) and substr(start, ST_AUTO_SIZE); the defaulted trim set "
+    "next to the explicit one; before/after_first/last through const char8_t* on the const subject and on a second, mutable subject object "
+    "(own buffer), and the ST::string / const char* / char forms on that mutable object too; the subject as its own separator (ST::string "
+    "and c_str()) and its own c_str() as trim set. Long layout (leading byte 0xE0..0xFD, ~12% of the cases): subjects of 17 bytes..~48 KB "
+    "(half <= 300, block sizes 256..16384 +-1, 1 in 16 between 16 and 48 KB) expanded from a 64-bit value over ordinary text / {a b A} / "
+    "core alphabet with NUL and multi-byte / raw bytes / the neighbours of the letter ranges (@ ` [ { \\ | ] } ^ ~ _ DEL) / a whitespace "
+    "mix (VT FF NBSP NEL NUL), with 0..700 planted separators of 1..300 bytes (255/256/257 among them): a ruler of dashes or distinct "
+    "punctuation that occurs nowhere else, letters mixed with case neighbours, multi-byte characters, one containing NUL, or cut out of the "
+    "subject (optionally with 1-3 bytes XOR 0x20); planted look-alikes (letter case flipped, every byte XOR 0x20, one byte short, one byte "
+    "changed, doubled); first site at offset 0 / last site ending at the end; the LAST site starting B*m-1..B*m+|sep|+1 bytes before the END "
+    "and the FIRST at B*m-|sep|-1..B*m+1 from the START for B in {32..16386} (block edges); runs of 0..600 trim-set members on both sides, "
+    "fenced by VT/FF/NUL/NBSP/NEL bytes; trim sets of 0..40 bytes (33, 40, 17 with the last >= 0x80, lead/continuation bytes, bytes of the "
+    "subject, random); positions from the same tables with 16-bit offsets. Enumerated in addition: separators of every length 1..300 x 6 "
+    "placements x 2 kinds; a 70001-byte subject x positions around 255/256/65535/65536; the last/first/only occurrence of a 2/3/8/17-byte "
+    "separator at every offset around block edges (16..16386 from END and START) of a 49157-byte text; whitespace runs of every length "
+    "0..300, 600, 4096, 70000.",
     true, "exploration"};
 
 namespace {
